@@ -69,7 +69,12 @@ META = {
         "and SCPPacket.from_bytestring >= 14 bytes, shorter SCP strings "
         "(lengths 10..13 are explored) raise struct.error",
     ],
-    "outside_claim": ["payloads longer than 16 (quick) / 24 (thorough) bytes "
+    "outside_claim": ["code that packs through something other than the "
+                      "module's `struct` name (e.g. a precompiled "
+                      "struct.Struct): the symbolic units give up after 40 "
+                      "values per field (inconclusive); the concrete unit "
+                      "'extreme field values' still runs it",
+                      "payloads longer than 16 (quick) / 24 (thorough) bytes "
                       "(the code has no length-dependent branch beyond 12 "
                       "bytes after cmd_rc/seq)",
                       "negative field values and fields wider than the "
